@@ -6,7 +6,7 @@ import types
 
 import enc
 import encdata as E
-from enc import gz, gflags, tflags, tlist, tstr, tz, tres, call
+from enc import gz, gflags, tflags, tlist, tstr, tz, tres, call, topt
 from props import corpus
 
 V38 = sys.version_info >= (3, 8)
@@ -103,6 +103,16 @@ def work(ctx):
         if d.type.type != want:
             ctx.violation("kind-differs", "%s: type %r, inspect classifies %r" % (what, d.type.type, want), {"what": what})
         ctx.count("kind:%s" % want)
+        # the Spec side the theorem C04_header mentions (Spec/FuncKind.v) against the real function object / inspect
+        if ctx.rng.random() < (0.3 if ctx.quick else 1.0):
+            try:
+                kind_tok = {None: [0], "GENERATOR": [1, 0], "COROUTINE": [1, 1], "ASYNC_GENERATOR": [1, 2]}[want]
+                ctx.case("(ser_opt ser_str (cpy_doc %s) ++ ser_opt (fun t => [match t with FT_GENERATOR => 0 | FT_COROUTINE => 1 | FT_ASYNC_GENERATOR => 2 end]) "
+                         "(inspect_kind cfg %s) ++ ser_bool (function_like cfg %s))" % (
+                             E.glist([E.g_pyconst(x) for x in code.co_consts], "pyconst"), gz(code.co_flags), gz(code.co_flags)),
+                         topt(fn.__doc__, tstr) + kind_tok + [1], "Spec/FuncKind on %s" % what, "spec-kind")
+            except E.Unsupported:
+                pass
         # correspondence of the signature functions (the property's projection)
         fl = call(to_flags_data, code.co_flags)
         if fl[0] == "ok" and ctx.rng.random() < (0.5 if ctx.quick else 1.0):
